@@ -16,7 +16,7 @@ EXPLANATION = (
     "history line was copied into the buffer; the splitter slices at find(';') offsets. R5 (DOM): Up/Down step history.index only under "
     "a guard on it (or clamp it), and reset the cursor only under such a guard - a history key that does not change the focused entry leaves "
     "the cursor alone, as a plain editor does."
-    ' R1 also checks byte-index sinks (String::insert/remove/...: the position must be a boundary-safe byte offset). R4 also: update_next returns only with the draft focused (copy and focus reset on every path). R8: clearing the edit buffer is followed by cursor := 0 on every path to the return. R2 also: the count a step is guarded by is that of the line on show - get_current(), or the buffer once update_next dominates -, not of the hidden draft. R9: no function of the editor narrows a `char` to u8/u16 (`ch as u8`) outside an is_ascii test of that character. R10: no blank line is submitted - from the blank side of the draft test no `complete` answer is reachable, and the history list is only pushed to by TerminalHistory::push (from read_line, behind the raw read, with the buffer) and by the history-file loader behind a `trim().is_empty()` test.'
+    ' R1 also checks byte-index sinks (String::insert/remove/...: the position must be a boundary-safe byte offset). R4 also: update_next returns only with the draft focused (copy and focus reset on every path). R8: clearing the edit buffer is followed by cursor := 0 on every path to the return. R2 also: the count a step is guarded by is that of the line on show - get_current(), or the buffer once update_next dominates -, not of the hidden draft. R9: no function of the editor narrows a `char` to u8/u16 (`ch as u8`) outside an is_ascii test of that character. R10: no blank line is submitted - from the blank side of the draft test no `complete` answer is reachable, and the history list is only pushed to by TerminalHistory::push (from read_line, behind the raw read, with the buffer) and by the history-file loader behind a `trim().is_empty()` test. R3's scope is the whole terminal reader (read, read_line, the raw read, the prompt, the history push, the splitter); lace::output and lace::term are the environment side (not entered), a failed write to the terminal is assumption A7, and read_line's non-blank assertion is conditional on R10.'
 )
 NOT_DECIDED = "equality with a reference editor for all key sequences; that helper results are <= the character count (value-level)"
 
@@ -192,8 +192,21 @@ def run(ctx):
     ctx.finish_rule()
 
     # ------------------------------------------------------------------ R3
-    run_ledger(ctx, "C20.R3", "closed panic ledger of the key handler and the command splitter",
-               [HK, T + "Terminal::get_next_command"], floor=20)
+    # scope: everything the terminal reader runs between being asked for a command and handing one back (read -> read_line -> raw read ->
+    # prompt, key handler, history push; the splitter). The output layer and the raw-mode wrapper (lace::output, lace::term) are the
+    # environment's side and are not entered; a failed write to the terminal is assumption A7
+    READ = "lace::<debugger::command::reader::terminal::Terminal as debugger::command::reader::Read>::read"
+    ctx.fn(READ)
+    env_side = sorted(n for n in prog.fns if n.startswith("lace::output::") or n.startswith("lace::term::") or n.startswith("lace::<output::"))
+    def io_result(st):
+        tys = st.fn.term(st.bb).get("arg_tys") or [""]
+        return st.kind == "unwrap" and "std::io::error::Error" in tys[0]
+    run_ledger(ctx, "C20.R3", "closed panic ledger of the terminal reader: prompt, key handler, history, command splitter",
+               [HK, T + "Terminal::get_next_command", READ], stop=env_side, floor=20, only=(lambda st: st.fn.name not in set(env_side) and not any(st.fn.name.startswith(e_ + "::") for e_ in env_side)),
+               conditional=[(lambda st: st.fn.name.startswith(T) and io_result(st), "A7",
+                             "assumption A7: the terminal (stderr) and the history file accept output; a failed write is an environment fault, not a key sequence"),
+                            (lambda st: st.fn.name == T + "Terminal::read_line" and st.kind.startswith("panic:") and "non-empty" in st.desc, "C20.R10",
+                             "a finished raw read leaves a non-blank buffer: blank drafts are refused and no blank line is ever in the history (C20.R10)")])
 
     # ------------------------------------------------------------------ R4
     ctx.rule("C20.R4", "submission and splitting", floor=2)
